@@ -15,9 +15,9 @@ RULE = ("kinds: sequence (random operation sequence over {integrate(), integrate
         "non-trivial = sequence contains a reset followed by an integration; distinct by operation-shape signature")
 ASSUMPTIONS = ["persistent settings across reset(): method, rtol, atol, tf, kick mask, constants; dt returns to the constructor's dt with the sign of (tf - t0)"]
 FLOORS = {"quick": {"sequences": 100, "resets_checked": 100, "twin_comparisons": 100, "reset_after_event": 15, "reset_after_fault": 15, "reset_after_method_change": 15,
-                    "split_pairs": 30, "noop_calls": 30, "call_start_step_replay_steps": 300, "call_start_slope_checks": 100, "faults_inside_a_retry": 8, "cross_process_comparisons": 10, "near_target_noop_calls": 80, "settings_order_pairs": 25},
+                    "split_pairs": 30, "noop_calls": 30, "call_start_step_replay_steps": 300, "call_start_slope_checks": 100, "faults_inside_a_retry": 8, "cross_process_comparisons": 10, "near_target_noop_calls": 80, "settings_order_pairs": 25, "reassignment_comparisons": 30},
           "thorough": {"sequences": 1000, "resets_checked": 1000, "twin_comparisons": 1000, "reset_after_event": 150, "reset_after_fault": 150,
-                       "reset_after_method_change": 150, "split_pairs": 300, "noop_calls": 300, "call_start_step_replay_steps": 3000, "call_start_slope_checks": 1000, "faults_inside_a_retry": 40, "cross_process_comparisons": 70, "near_target_noop_calls": 800, "settings_order_pairs": 250}}
+                       "reset_after_method_change": 150, "split_pairs": 300, "noop_calls": 300, "call_start_step_replay_steps": 3000, "call_start_slope_checks": 1000, "faults_inside_a_retry": 40, "cross_process_comparisons": 70, "near_target_noop_calls": 800, "settings_order_pairs": 250, "reassignment_comparisons": 200}}
 CASE_TIMEOUT = 900
 METHODS = ["RK45CKSolver", "DOPRI45", "RK4Solver", "EulerSolver", "HeunEulerSolver", "RK8713MSolver", "ABAs5o6HSolver", "SymplecticEulerSolver",
            "BackwardEuler", "RadauIIA5", "GaussLegendre4", "MidpointSolver", "LobattoIIIC4", "R2:RK4Solver", "R3:MidpointSolver", "R3:HeunEulerSolver", "R4:EulerSolver"]
@@ -95,6 +95,17 @@ def gen_cases(tier, seed):
         rt = float(10 ** rng.uniform(-7, -3))
         cases.append(dict(kind="settings_order", method=m0, direction=int(rng.choice([-1, 1])), dense=bool(rng.random() < 0.3), rtol=rt, atol=rt * float(10 ** rng.uniform(-3, 0)),
                           order=(["method", "tol"] if i < len(so_names) else [str(x) for x in rng.permutation(["tol", "method"])]), loose_first=float(10 ** rng.uniform(0.5, 3)), pseed=int(rng.integers(1 << 30)), cost=6))
+    # a method assigned more than once (the same splitting scheme twice, one splitting scheme after another, a splitting scheme after an ordinary
+    # one, with or without a run in between) leaves the system as a single assignment of the LAST method leaves a fresh one - before and after reset()
+    rngr = rng_for(1303, seed)
+    spl = ["ABAs5o6HSolver", "SymplecticEulerSolver", "BABs9o7HSolver"]
+    for i in range(18 if tier == "quick" else 120):
+        last = spl[i % 3] if i % 4 != 3 else str(rngr.choice(["RK4Solver", "RK45CKSolver", "GaussLegendre4"]))
+        chain = [str(rngr.choice(spl + ["RK4Solver", "RK45CKSolver"])) for _ in range(int(rngr.integers(1, 3)))]
+        if i % 3 == 0:
+            chain[-1] = last          # the same scheme assigned twice in a row
+        cases.append(dict(kind="reassign", method=last, chain=chain, run_between=bool(rngr.random() < 0.4), dim=int(rngr.choice([2, 4])), direction=int(rngr.choice([-1, 1])),
+                          dense=bool(rngr.random() < 0.3), pseed=int(rngr.integers(1 << 30)), cost=5))
     # the same sequence in THIS interpreter and in a fresh one started with another hash seed: bit-identical logs (no dependence on
     # interpreter state, import order, dict/set iteration order or class-level caches filled by earlier work of this process)
     seqs = [c for c in cases if c["kind"] == "sequence"]
@@ -365,7 +376,56 @@ def _settings_order(spec):
     return rec.out()
 
 
+def _reassign(spec):
+    M = util.methods()
+    d = spec["direction"]
+    prob = Manufactured(spec["dim"], spec["pseed"], direction=d)
+    t0, tf = 0.2, 0.2 + d * 2.0
+    rec = util.Rec(sig="reassign|%s|%s|%d|%d|%s" % (spec["method"], "+".join(spec["chain"]), spec["dim"], d, spec["run_between"]))
+    feats = {"kind": "reassign", "method": spec["method"], "chain": "+".join(spec["chain"]), "dim": spec["dim"], "direction": d, "run_between": spec["run_between"]}
+
+    def f(t, y, **kw):
+        return prob.rhs(t, y)
+    y0 = prob.ystar(t0).astype(np.float64)
+
+    def fresh():
+        return sysrun.make_system(f, y0.copy(), t0, tf, 0.05, M[spec["method"]]["cls"], dense=spec["dense"], rtol=1e-6, atol=1e-8)
+    A = sysrun.make_system(f, y0.copy(), t0, tf, 0.05, M[spec["chain"][0]]["cls"], dense=spec["dense"], rtol=1e-6, atol=1e-8)
+    for nm in spec["chain"][1:]:
+        if spec["run_between"]:
+            sysrun.call_integrate(A, t=float(A.t[-1]) + d * 0.2, max_steps=20000)
+        A.method = M[nm]["cls"]
+    if spec["run_between"]:
+        sysrun.call_integrate(A, t=float(A.t[-1]) + d * 0.2, max_steps=20000)
+        A.method = M[spec["method"]]["cls"]
+        A.reset()
+    else:
+        A.method = M[spec["method"]]["cls"]
+    B = fresh()
+    for phase in ("after_reassignment", "after_reset"):
+        sa = sysrun.call_integrate(A, max_steps=20000)
+        sb = sysrun.call_integrate(B, max_steps=20000)
+        rec.bump("reassignment_comparisons")
+        f2 = dict(feats, phase=phase)
+        if bool(sa["raised"]) != bool(sb["raised"]):
+            rec.violate("reassigned_method", "run_after_repeated_method_assignment_raises_but_fresh_system_does_not" if sa["raised"] else "fresh_system_raises_only", f2,
+                        err=repr(getattr(sa["exc"], "__cause__", None) or sa["exc"])[:200])
+            break
+        if not (len(A) == len(B) and np.array_equal(np.asarray(A.t), np.asarray(B.t)) and np.array_equal(np.asarray(A.y), np.asarray(B.y))):
+            n_ = min(len(A), len(B))
+            rec.violate("reassigned_method", "run_after_repeated_method_assignment_differs_from_fresh_system_with_that_method", f2, rows=[len(A), len(B)],
+                        max_diff=float(np.max(np.abs(np.asarray(A.y)[:n_] - np.asarray(B.y)[:n_]))))
+            break
+        A.reset()
+        B = fresh()
+    rec.nontrivial = len(B) >= 1
+    rec.sample = {"spec": {k: spec[k] for k in ("method", "chain", "dim", "direction", "run_between")}, "rows": len(A)}
+    return rec.out()
+
+
 def run_case(spec):
+    if spec["kind"] == "reassign":
+        return _reassign(spec)
     if spec["kind"] == "split":
         return _split(spec)
     if spec["kind"] == "settings_order":
